@@ -236,6 +236,9 @@ def run(module, cfg=None, scratch=None, workers=16, timeout=900, env=None, deadl
     e.pop("JAVA_TOOL_OPTIONS", None)
     if env:
         e.update({k: str(v) for k, v in env.items()})
+    # timeouts only exist to turn a runaway TLC into a machinery failure; they are stated for an idle 16-core
+    # machine and scaled so that a heavily loaded one does not trip them (KNEE_TLC_TIMEOUT_SCALE, default 4)
+    timeout = timeout * float(os.environ.get("KNEE_TLC_TIMEOUT_SCALE", "4"))
     t0 = time.time()
     r = TLCResult()
     r.cmd = " ".join(cmd)
@@ -253,6 +256,12 @@ def run(module, cfg=None, scratch=None, workers=16, timeout=900, env=None, deadl
     finally:
         shutil.rmtree(meta, ignore_errors=True)
     r.wall_s = time.time() - t0
+    try:
+        with open(os.path.join(scratch, "..", "tlc_times.log") if os.path.basename(scratch.rstrip("/")) != ".scratch"
+                  else os.path.join(scratch, "tlc_times.log"), "a") as fh:
+            fh.write("%s %s %s wall=%.1f timeout=%.0f ratio=%.3f\n" % (os.environ.get("KNEE_CHECK_ID", "?"), module, cfg, r.wall_s, timeout, r.wall_s / timeout))
+    except OSError:
+        pass
     r.stdout = out
     r.rc = rc
     m = None
